@@ -96,6 +96,19 @@ CLAIMED["C12"] = dict(
     design="6/C12",
 )
 
+CLAIMED["C08"] = dict(
+    text="Lean theorems (Props/C08.lean), parametric in every member's matcher: after a breadth-first run each member has exactly the "
+         "loop state and collected lines of its solo run, whatever the other members do and in any order; the solo run is the "
+         "standalone next()/collect() run up to finalize; per record the caller's line is the union (intersection with if_all_agree) "
+         "of the running members' decisions. Tie: suite `group` runs every member alone and under all six CsvPaths methods (listed "
+         "and reversed order), compares lines, variables, printouts, validity, counters and the caller's lines, and replays the "
+         "breadth-first runs through the Lean model under the members' recorded matcher scripts.",
+    note="Serial methods are compared on the real code only (a serial run is a list of standalone runs by construction of the model). "
+         "Error-message printouts carry the member's identity and are compared as error records instead.",
+    technique="Lean 4 proof (product invariant over records for interleaved members) + recorded-matcher correspondence",
+    design="6/C08",
+)
+
 NOT_YET = "check not built yet in this revision (planned: see DESIGN.md section 6); not claimed until its theorem and correspondence suite exist"
 
 
